@@ -79,6 +79,16 @@ func (r *vSketchRun) ensure(size uint) {
 	})
 }
 
+// ensureHuge asks for a capacity that does not fit a signed integer (a damaged snapshot's entry count ends up
+// here through Recover). Whatever the sketch makes of it, its table must not shrink. Logged with size 0, the
+// request itself is outside TLC's integers.
+func (r *vSketchRun) ensureHuge(size uint) {
+	r.guard("ensure", func() {
+		r.s.EnsureCapacity(size)
+		r.tr.Emit(vRec{"op": "ensure", "size": 0, "len": len(r.s.Table), "sample": r.s.SampleSize, "additions": r.s.Additions})
+	})
+}
+
 func (r *vSketchRun) nearSample(d uint) {
 	if r.s.SampleSize > d && r.s.Additions < r.s.SampleSize-d {
 		r.s.Additions = r.s.SampleSize - d
@@ -178,8 +188,10 @@ func TestVerif_C17SketchDriver(t *testing.T) {
 				r.est(h)
 			case x < 94:
 				r.nearSample(uint(1 + rng.Intn(4)))
-			case x < 97:
+			case x < 96:
 				r.ensure(uint(rng.Intn(int(size) + 2)))
+			case x < 97:
+				r.ensureHuge(uint(1)<<63 + uint(rng.Intn(1<<30))<<uint(rng.Intn(33)))
 			default:
 				if lg < maxlog {
 					lg++
